@@ -78,7 +78,7 @@ func wrongKey(pskLen int) Key { return Key{9, 48 - pskLen} }
 var keyTable = func() map[string]Key {
 	m := map[string]Key{}
 	for _, l := range []int{16, 32} {
-		for id := 1; id < 600; id++ {
+		for id := 1; id < 3000; id++ {
 			k := Key{id, l}
 			m[string(k.Bytes())] = k
 		}
@@ -348,7 +348,13 @@ func (im *Impl) do(line string) string {
 	case "reload":
 		return classify(im.ms.LoadFromFile(), true)
 	case "edit":
-		if err := os.WriteFile(im.path, Doc(ws[1]).text(), 0o644); err != nil {
+		// somebody else replaces the store file: written aside and renamed over it (an editor that truncated
+		// the file in place under a reader that has it mapped would be a different hazard, not this property's)
+		tmp := im.path + ".edit"
+		if err := os.WriteFile(tmp, Doc(ws[1]).text(), 0o644); err != nil {
+			return "harness-error:" + err.Error()
+		}
+		if err := os.Rename(tmp, im.path); err != nil {
 			return "harness-error:" + err.Error()
 		}
 		return "ok"
